@@ -203,6 +203,9 @@ def judge(rows_by_id, res, cats, report, selftest=False):
             accepted = bool(x["assignable"] and x["circuit"])
             sc_ = st.setdefault("shape", {}).setdefault(lst, {"surplus": 0, "short": 0, "native_shape_reject_surplus": 0})
             sc_[direction] += 1
+            cl = st["classes"].setdefault(x["class"], {"n": 0, "native_reject": 0})
+            cl["n"] += 1
+            cl["native_reject"] += 0 if x["native"] else 1
             if direction == "surplus" and not x["native"] and kind_of_detail(x["native_detail"]).startswith("other:"):
                 sc_["native_shape_reject_surplus"] += 1
             st["stages"][x["stage"]] = st["stages"].get(x["stage"], 0) + 1
@@ -343,8 +346,13 @@ def run(chk, tier):
     shp = st.get("shape", {})
     chk.extra["shape_classes"] = shp
     lists = {c[6:].rsplit(":", 1)[0] for x in res if "shape" in x for c in cats[min(len(x["shape"]["layers"]), 3)] if c.startswith("shape:")}
-    noshape = sorted(l for l in lists if shp.get(l, {}).get("native_shape_reject_surplus", 0) == 0 or shp[l]["short"] == 0
-                     and l not in ("op_lzs", "op_lzs_next"))
+    # a list that is empty in every shape (no lookups, a layer whose tree is as small as its cap) has no short case
+    empty_short = {x["class"][6:].rsplit(":", 1)[0] for x in res if x.get("empty") and x.get("class", "").startswith("shape:") and x["class"].endswith(":short")}
+    tried_surplus = {x["class"][6:].rsplit(":", 1)[0] for x in res if not x.get("empty") and x.get("class", "").startswith("shape:") and x["class"].endswith(":surplus")}
+    noshape = sorted(l for l in lists & tried_surplus if shp.get(l, {}).get("native_shape_reject_surplus", 0) == 0
+                     or (shp[l]["short"] == 0 and l not in empty_short))
+    if len(tried_surplus) < 12:
+        raise ToolError("vacuity: only %d list classes were resized" % len(tried_surplus))
     if noshape:
         raise ToolError("vacuity: shape classes without a natively shape-rejected surplus case (or without a short case): %s" % noshape)
     missing = sorted(c for c in need if st["classes"].get(c, {}).get("native_reject", 0) == 0)
